@@ -85,6 +85,8 @@ def check_property_on_impl(shapes, joins, res):
         return ('not-gapfree', 'global numbering is not a gap-free bijection onto range(numdofs=%d): %d classes, indices %s..' % (
             res['numdofs'], len(by_class), sorted(by_glob)[:12]))
     if not res['mats_ok']:
+        if 'jglobal_bad' in res:
+            return ('p2g-matrix-jglobal', 'patch_to_global(%d, j_global=True) does not place the unit entries of the patch in its own column block' % res['jglobal_bad'])
         return ('p2g-matrix', 'patch_to_global is not the 0/1 matrix with one unit entry per local dof at patch_to_global_idx')
     for p, shp in enumerate(shapes):
         inj = len(set(idx[p])) == len(idx[p])
